@@ -186,6 +186,8 @@ static int block_id(void *p)
     __sync_lock_release(&g_seen_lock);
     return id + 1;
 }
+static void *g_left[16];
+static volatile int g_nleft;
 typedef struct {
     int t, nops;
     uint64_t rng;
@@ -224,13 +226,22 @@ static void *mp_main(void *arg)
         }
         abtv_point();
     }
-    while (nh) {
+    /* some blocks outlive the local pool they came from (it is destroyed while they are in use)
+     * and are given back through another local pool later */
+    int keep = a->t < 2 ? mp_rnd(a, 4) : 0;
+    while (nh > keep) {
         void *p = held[--nh];
         int ok = 1;
         for (int b = 0; b < MP_ELEM; b++)
             ok &= ((unsigned char *)p)[b] == 0x40 + a->t;
         EV("\"e\":\"PFree\",\"t\":%d,\"h\":%d,\"intact\":%d", a->t, block_id(p), ok);
         ABTI_mem_pool_free(&g_lp[a->t], p);
+    }
+    while (nh) {
+        void *p = held[--nh];
+        EV("\"e\":\"PMove\",\"t\":%d,\"h\":%d,\"to\":9", a->t, block_id(p));
+        memset(p, 0x49, MP_ELEM);
+        g_left[__sync_fetch_and_add(&g_nleft, 1)] = p;
     }
     return NULL;
 }
@@ -240,7 +251,10 @@ static void scn_mpool(uint64_t seed)
     abtv_ledger_track(1);
     g_nseen = 0;
     ABTU_MEM_LARGEPAGE_TYPE types[1] = { ABTU_MEM_LARGEPAGE_MALLOC };
-    ABTI_mem_pool_init_global_pool(&g_gp, 2, MP_ELEM, 0, MP_ELEM * 5, types, 1, 64, NULL);
+    /* buckets of 2..5 headers, pages of 2 buckets + 1 header (so partial buckets occur) */
+    int nb = 2 + rnd(4);
+    g_nleft = 0;
+    ABTI_mem_pool_init_global_pool(&g_gp, (size_t)nb, MP_ELEM, 0, MP_ELEM * (size_t)(2 * nb + 1), types, 1, 64, NULL);
     for (int t = 0; t < MP_THREADS; t++)
         if (ABTI_mem_pool_init_local_pool(&g_lp[t], &g_gp) != ABT_SUCCESS)
             abtv_fail("crash:api-error", ABTV_EXIT_CRASH);
@@ -254,8 +268,37 @@ static void scn_mpool(uint64_t seed)
     }
     for (int t = 0; t < MP_THREADS; t++)
         pthread_join(th[t], NULL);
-    for (int t = 0; t < MP_THREADS; t++)
-        ABTI_mem_pool_destroy_local_pool(&g_lp[t]);
+    /* two local pools go away (their incomplete buckets are merged in the global pool) while some
+     * of their blocks are still in use; the third one gives those back and then takes several
+     * buckets' worth of blocks: every one a block of its own, all of them usable */
+    ABTI_mem_pool_destroy_local_pool(&g_lp[0]);
+    ABTI_mem_pool_destroy_local_pool(&g_lp[1]);
+    for (int i = 0; i < g_nleft; i++) {
+        void *p = g_left[i];
+        int ok = 1;
+        for (int b = 0; b < MP_ELEM; b++)
+            ok &= ((unsigned char *)p)[b] == 0x49;
+        EV("\"e\":\"PFree\",\"t\":9,\"h\":%d,\"intact\":%d", block_id(p), ok);
+        ABTI_mem_pool_free(&g_lp[2], p);
+    }
+    {
+        void *many[24];
+        int nm = 3 * nb + 2;
+        for (int i = 0; i < nm; i++) {
+            if (ABTI_mem_pool_alloc(&g_lp[2], &many[i]) != ABT_SUCCESS)
+                abtv_fail("crash:api-error", ABTV_EXIT_CRASH);
+            memset(many[i], 0x60 + i, MP_ELEM);
+            EV("\"e\":\"PAlloc\",\"t\":9,\"h\":%d,\"al\":%d", block_id(many[i]), (int)((uintptr_t)many[i] % 64));
+        }
+        for (int i = 0; i < nm; i++) {
+            int ok = 1;
+            for (int b = 0; b < MP_ELEM; b++)
+                ok &= ((unsigned char *)many[i])[b] == 0x60 + i;
+            EV("\"e\":\"PFree\",\"t\":9,\"h\":%d,\"intact\":%d", block_id(many[i]), ok);
+            ABTI_mem_pool_free(&g_lp[2], many[i]);
+        }
+    }
+    ABTI_mem_pool_destroy_local_pool(&g_lp[2]);
     ABTI_mem_pool_destroy_global_pool(&g_gp);
     EV("\"e\":\"Ledger\",\"live\":%ld,\"errors\":%ld,\"allocs\":%d", abtv_ledger_live(), abtv_ledger_errors(), abtv_ledger_allocs() > 0);
     abtv_ledger_track(0);
